@@ -5,14 +5,14 @@ from fractions import Fraction
 from core import Result
 import proto, gen
 
-THEOREMS = ['C07_fraction', 'C07_fraction_inside', 'C07_fraction_range', 'C07_rule', 'C07_pointwise', 'C07_one_minN',
+THEOREMS = ['C07_detector_args', 'C07_fraction', 'C07_fraction_inside', 'C07_fraction_range', 'C07_rule', 'C07_pointwise', 'C07_one_minN',
             'C07_antitone', 'C07_rejects_threshold', 'C07_rejects_amp_threshes']
 RULE = ("(a) synthetic burst_fraction columns (values k/n, NaN, on/next to the threshold) x thresholds (grid, observed values, out of range) x min_n_cycles; "
         "(b) compute_features(burst_method='amp') on generated partially bursting signals, both centrings, amp_threshes grid (incl. reversed), "
         "min_n_cycles supplied via thresholds / burst options / both / neither: the harness recomputes the dual-threshold mask with neurodsp for the "
         "min_n_cycles the SPEC says must reach the detector and compares burst_fraction (exact k/n within 1e-12) and is_burst; "
         "distinct = distinct inputs; non-trivial = labels contain both values or fractions strictly between 0 and 1 or the call must raise")
-ASSUMPTIONS = ["neurodsp.burst.detect_bursts_dual_threshold is a parameter (recorded mask); min_burst_duration=None"]
+ASSUMPTIONS = ["neurodsp.burst.detect_bursts_dual_threshold is a parameter (mask recorded by the harness for the arguments the Lean spec prescribes)"]
 BATCH = 300
 TOL = Fraction(1, 10**12)
 
@@ -52,14 +52,23 @@ def _signal_case(c):
     return dict(fracs=[float(x) for x in df['burst_fraction'].values], labels=proto.enc_bits(list(df['is_burst'].values.astype(bool))),
                 sides=sides, n=len(sig))
 
-def _dual(c, min_n):
+def _num(a):
+    """decode an Option Rat atom into None / int / float"""
+    if a == 'None':
+        return None
+    f = Fraction(a)
+    return int(f) if f.denominator == 1 else float(f)
+
+def _dual(c, args):
+    """args = [min_n_cycles atom, min_burst_duration atom] as answered by the driver"""
     from neurodsp.burst import detect_bursts_dual_threshold
     sig = proto.hex2arr(c['sig'])
     bk = c['bk'] or {}
     at = tuple(bk.get('amp_threshes', (1, 2)))
     with warnings.catch_warnings():
         warnings.simplefilter('ignore')
-        m = detect_bursts_dual_threshold(sig, c['fs'], at, tuple(c['f_range']), min_n_cycles=min_n, min_burst_duration=None)
+        m = detect_bursts_dual_threshold(sig, c['fs'], at, tuple(c['f_range']), min_n_cycles=_num(args[0]),
+                                         min_burst_duration=_num(args[1]))
     return list(np.asarray(m).astype(bool))
 
 def corpus(ctx):
@@ -106,8 +115,13 @@ def generate(ctx):
             bk['amp_threshes'] = [-1.0, 1.0]
         th = {'burst_fraction_threshold': float(rng.choice([0, 0.25, 0.5, 0.8, 1.0, 1.0]))}
         route = int(rng.integers(4))
-        if route in (1, 3): th['min_n_cycles'] = int(rng.choice([1, 2, 3, 4, 5]))
-        if route in (2, 3): bk['min_n_cycles'] = int(rng.choice([1, 2, 3, 4, 5]))
+        if route == 3:      # both given, far apart so that the choice is visible in the labels
+            lo_, hi_ = int(rng.choice([1, 2])), int(rng.choice([5, 7, 10]))
+            th['min_n_cycles'], bk['min_n_cycles'] = (lo_, hi_) if rng.random() < 0.5 else (hi_, lo_)
+        elif route == 1: th['min_n_cycles'] = int(rng.choice([1, 2, 5, 8]))
+        elif route == 2: bk['min_n_cycles'] = int(rng.choice([1, 2, 5, 8]))
+        if rng.random() < 0.3:
+            bk['min_burst_duration'] = float(rng.choice([0.0, 0.0, 0.05, 0.2, 0.5]))
         bkv = bk if (bk or rng.random() < 0.7) else None
         thv = th if rng.random() < 0.95 else None
         cases.append(dict(kind='signal', sig=proto.arr2hex(s['sig']), fs=s['fs'], f_range=list(s['f_range']),
@@ -133,6 +147,14 @@ def evaluate(ctx, cases):
             reqs.append('minn.spec %s %s' % (_opt(bk, 'min_n_cycles'), _opt(th, 'min_n_cycles')))
             meta.append(_signal_case(c))
     ans = proto.run_driver(reqs)
+    # round 1b: which (min_n_cycles, min_burst_duration) reach the detector
+    reqs1b = []
+    for i, c in enumerate(cases):
+        if c['kind'] != 'table':
+            bk = c['bk'] or {}
+            reqs1b.append('detargs.model %s %s' % (ans[2 * i][0], _opt(bk, 'min_burst_duration')))
+            reqs1b.append('detargs.spec %s %s' % (ans[2 * i + 1][0], _opt(bk, 'min_burst_duration')))
+    ans1b = iter(proto.run_driver(reqs1b))
     # pass 2: for signal cases compute masks and ask fraction / label questions
     reqs2, plan = [], []
     for i, c in enumerate(cases):
@@ -144,22 +166,26 @@ def evaluate(ctx, cases):
         at = bk.get('amp_threshes', [1, 2])
         expect_err = at[0] < 0 or at[1] < at[0] or at[0] > at[1]
         det_m, run_m = Fraction(a[0]), Fraction(a[1]); det_s, run_s = Fraction(b[0]), Fraction(b[1])
+        args_m, args_s = next(ans1b), next(ans1b)
         kernel_err = None
         if not expect_err:
             try:
-                mask_s = _dual(c, int(det_s) if det_s.denominator == 1 else float(det_s))
+                mask_s = _dual(c, args_s)
             except Exception as e:      # the neurodsp kernel itself fails on this input (not bycycle code)
                 kernel_err = type(e).__name__
         if 'err' in im or expect_err or kernel_err:
             plan.append(('sigerr', im, expect_err, kernel_err)); continue
-        mask_m = mask_s if det_m == det_s else _dual(c, int(det_m) if det_m.denominator == 1 else float(det_m))
+        try:
+            mask_m = mask_s if args_m == args_s else _dual(c, args_m)
+        except Exception:
+            mask_m = []
         sides = '[' + ','.join('[%d,%d]' % (x, y) for x, y in im['sides']) + ']'
         thr = th.get('burst_fraction_threshold', 1)
         fr = proto.enc_list(im['fracs'])
         reqs2 += ['bfrac.model %s %s' % (proto.enc_bits(mask_m), sides), 'bfrac.spec %s %s' % (proto.enc_bits(mask_s), sides),
                   'amp.model %s %s %s' % (fr, proto.enc_rat(thr), proto.enc_rat(run_m)),
                   'amp.spec %s %s %s' % (fr, proto.enc_rat(thr), proto.enc_rat(run_s))]
-        plan.append(('sig', im, len(reqs2) - 4, (det_m, run_m, det_s, run_s)))
+        plan.append(('sig', im, len(reqs2) - 4, (det_m, run_m, det_s, run_s, args_m, args_s)))
     ans2 = proto.run_driver(reqs2)
     for c, p in zip(cases, plan):
         info = {}
